@@ -12,6 +12,7 @@ RULE = ("(a) inclusion final <= reachability strategy at every Player-1 state of
         "stopping games with absorbing finals: G-LEX (most rewarding action not reachability-optimal), G-ACY with dense reward ties, "
         "G-CYC, G-DEAD, G-TIE; conditioned rewards solved exactly.  Non-trivial: some checked Player-1 state had an original action "
         "removed by conditioning (lex state), or a reward tie, or a Player-2 state was checked; distinct = game hash x mode.")
+RULE += (' Also (rounds 5-6): G-GAP/G-GAPLOOP (values 1e-9..1e-4 apart around the 6-digit resolution), G-CORR, G-BIGR, G-DIGIT (digit-only / ambiguous action names), G-RETRY (cycles through state 0), G-FINREP (final states listed repeatedly, as list or tuple); a seventh of the solves pass the pruning flag as the int 1/0; an eighth of the batches each run with the root logger at DEBUG, under python -O, and with warnings raised on behalf of the repository turned into errors. THREADS class: the real code called from 3-4 threads of one interpreter (1 us switch interval, yield injection at every ~1000-3000th executed line), each concurrent outcome compared with the sequential outcome of the same process.')
 FLOOR = 300
 REQUIRED = ["solve.ok"]
 ASSUMPTIONS = ["exact sets: acyclic games with arbitrary ties; cyclic stopping games only where competing successor rewards are both exactly 0 or "
